@@ -36,6 +36,9 @@ def main():
         elif mode == "boundary":
             items = [{"v": i} for i in idx if i < len(universe.boundary_battery())]
             idx = idx[:len(items)]
+        elif mode == "inf":
+            items = [{"n": i} for i in idx if i < len(universe.battery_inf())]
+            idx = idx[:len(items)]
         elif mode == "battery":
             items = [{"b": i} for i in idx if i < len(universe.battery())]
             idx = idx[:len(items)]
